@@ -27,7 +27,7 @@ FaultKinds == <<"illegal_char_line", "stray_identifier_line", "stray_comma_line"
                 "bad_ref_operator", "bad_action", "bad_colour", "text_after_close_brace", "delete_open_bracket", "delete_close_bracket",
                 "duplicate_open_bracket", "duplicate_close_bracket",
                 "empty_settings", "trailing_comma_in_settings", "missing_comma_in_settings", "missing_value", "ref_without_column",
-                "keyword_typo", "junk_in_type_args">>
+                "keyword_typo", "junk_in_type_args", "exotic_space_line">>
 
 \* site = [ctx, kind, feats] : the line the fault is applied to (insertions go BEFORE that line, in its block)
 Has(site, f) == \E i \in DOMAIN site.feats : site.feats[i] = f
@@ -36,6 +36,9 @@ ProvablyInvalid(fault, site) ==
   CASE site.kind = "string" -> FALSE                       \* inside a multi-line literal everything is text
     [] fault = "illegal_char_line" -> TRUE                 \* @ % ; are no DBML tokens, on a line of their own
     [] fault = "stray_comma_line" -> TRUE
+    \* DBML's white space is blank, tab, CR and LF; every other character Unicode calls a space (form feed, vertical tab, NBSP,
+    \* U+2028, U+3000, U+0085 ...) is a stray token wherever it stands outside a literal or a comment
+    [] fault = "exotic_space_line" -> TRUE
     [] fault = "stray_identifier_line" -> site.ctx \in {"top", "table", "project", "ref", "note"}
     [] fault = "delete_close_brace" -> site.kind = "close"
     [] fault = "duplicate_close_brace" -> site.kind = "close"
